@@ -65,3 +65,7 @@ mod tests {
         );
     }
 }
+
+/// Verification harness access (see /verif) to the private verifier / resolver modules.
+#[cfg(iroh_verif)]
+pub(crate) use super::{resolver::verif_ident_present, verifier::verif_ident};
